@@ -23,7 +23,9 @@
 #include <aws/common/error.h>
 #include <aws/common/xml_parser.h>
 
+#include <csignal>
 #include <memory>
+#include <sys/time.h>
 
 using namespace pbt;
 
@@ -428,8 +430,6 @@ static int on_node(struct aws_xml_node *node, void *ud) {
 // A parse that does not return is a violation too (no element is reported, no error is returned).  A case takes
 // well under a millisecond; after 1 s of CPU time the process ends with a message and status 14, which the driver treats like
 // a crash inside the case (it re-runs the seed with one forked child per case, where this ends only the child).
-#include <csignal>
-#include <sys/time.h>
 static void on_alarm(int) {
     static const char m[] = "C12: aws_xml_parse did not return within 1 s of CPU time on the journalled case (hang)\n";
     (void)!write(2, m, sizeof m - 1);
